@@ -356,7 +356,10 @@ def test_a():
 
 def bad_copy(ctx: Ctx, only=None):
     for expr in ("assert Bad(1) == snapshot()", "assert Bad(1) <= snapshot()", "assert Bad(1) >= snapshot()", "assert Bad(1) in snapshot()", "assert [Bad(1)] == snapshot()",
-                 "assert Bad(1) == snapshot()['k']", "assert Bad(1) == snapshot(Bad(1))", "assert Bad(1) in snapshot([Bad(1)])"):
+                 "assert Bad(1) == snapshot()['k']", "assert Bad(1) == snapshot(Bad(1))", "assert Bad(1) in snapshot([Bad(1)])",
+                 # values that copy.deepcopy returns unchanged but that are not equal to themselves
+                 "assert float('nan') == snapshot()", "assert float('nan') <= snapshot()", "assert float('nan') in snapshot()",
+                 "assert __import__('decimal').Decimal('NaN') == snapshot()"):
         src = BADCOPY % expr
         for flags in ((), ("create", "fix")):
             if only and only != (expr, flags):
@@ -367,7 +370,7 @@ def bad_copy(ctx: Ctx, only=None):
             after = r["files"]["test_a.py"].decode()
             if R != ["UsageError"]:
                 ctx.report(f"a value whose deep copy is not equal to it was not rejected with UsageError in `{expr}` (flags {flags}): {R}", {"kind": "badcopy", "expr": expr, "flags": flags})
-            elif r["session_exc"] or after.count("Bad(") != src.count("Bad(") or "Ellipsis" in after or "..." in after.replace("...", "", src.count("...")):
+            elif r["session_exc"] or after.count("Bad(") != src.count("Bad(") or "Ellipsis" in after or "..." in after.replace("...", "", src.count("...")) or ("nan" in expr.lower() and after != src):
                 ctx.report(f"a rejected value was recorded anyway in `{expr}` (flags {flags}): {r['session_exc'] or after[-200:]}", {"kind": "badcopy", "expr": expr, "flags": flags})
 
 
